@@ -12,13 +12,13 @@ cp $WT/MUTANT/$DEMO $OUT/$DEMO; cp $WT/MUTANT/README.md $OUT/agent_README.md
 S=/tmp/mut/confirm-$ID; rm -rf $S; git -C /repo worktree add -q --detach $S HEAD
 cd $S
 # without change: demo passes
-cp $OUT/$DEMO $S/$DEST
+mkdir -p $(dirname $S/$DEST); cp $OUT/$DEMO $S/$DEST
 go test -vet=off -count=1 -run "$RUN" $PKG > $OUT/demo_without.log 2>&1; R_WITHOUT=$?
 rm $S/$DEST
 git apply $OUT/patch.diff || { echo "patch does not apply"; exit 2; }
 go build ./... > $OUT/build_with.log 2>&1; R_BUILD=$?
 go test -vet=off -count=1 -timeout 25m ./... > $OUT/suite_with.log 2>&1; R_SUITE=$?
-cp $OUT/$DEMO $S/$DEST
+mkdir -p $(dirname $S/$DEST); cp $OUT/$DEMO $S/$DEST
 go test -vet=off -count=1 -run "$RUN" $PKG > $OUT/demo_with.log 2>&1; R_WITH=$?
 cd /; git -C /repo worktree remove --force $S
 # our check
